@@ -1,21 +1,1178 @@
-//! Monitor for property C17 (see /verif/DESIGN.md §6).
+//! Monitor for property C17 - font-metric arithmetic (see /verif/DESIGN.md §6, NOTES.md here).
+//!
+//! Real code driven: `impl Display for FixWord`, `pl::File::from_pl_source_code` (which reaches
+//! `impl Parse for FixWord`), `FixWord::to_scaled`, `tfm::compress`, `NextLargerProgram::new/get`.
+//! Oracles: the transcriptions in `vmodels::fontarith` (TFtoPL §40-43, PLtoTF §62-66, TeX §568 +
+//! §571-572, PLtoTF §75-80, TFtoPL §84), a round trip, and brute-force/functional-graph oracles.
+
+use std::collections::{BTreeMap, BTreeSet, HashMap};
+use tfm::{Char, FixWord, NextLargerProgram, NextLargerProgramWarning};
 use vcore::*;
+use vmodels::fontarith as fa;
 
 pub struct M;
 pub static MONITOR: M = M;
+
+const STRIDE: u64 = 65_521;
+const STRIDE_PER_CASE: u64 = 1024;
+const CHUNK_BITS: u32 = 20;
+/// KRN entries per generated PL document (the reader keeps at most 32510 instructions)
+const DOC_BATCH: usize = 16_384;
+const SCALED_CHUNK: u64 = 1 << 16;
 
 impl Monitor for M {
     fn id(&self) -> &'static str {
         "C17"
     }
+
     fn rule(&self) -> String {
-        "not built yet".into()
+        "roundtrip_*: one case = a block of fix_word bit patterns (quick: 1024 values at stride 65521 with a seed-dependent offset, \
+         plus one boundary block; thorough: 2^20 consecutive patterns, 4096 blocks = all 2^32); every pattern is printed by the real \
+         Display, compared with the TFtoPL §40-43 transcription, embedded as (KRN C A R <text>) in a PL document of 16384 entries, read \
+         by pl::File::from_pl_source_code and compared bit for bit; every pattern is a distinct case by construction. \
+         containers: random values through every syntactic place a fix_word can appear (CHARWD/HT/DP/IC, named and numbered FONTDIMEN, \
+         KRN, DESIGNUNITS, DESIGNSIZE; R and D prefix). scaled_*: (fix_word, design size) pairs, non-trivial = distinct pair; \
+         compress_*: multisets, non-trivial = more distinct values than the class limit (compression really happens), distinct by \
+         (sorted distinct values, limit); nextlarger_*: functional graphs, non-trivial = has at least one link, distinct by edge set + \
+         existence set + mode."
+            .into()
     }
+
     fn assumptions(&self) -> Vec<String> {
-        vec![]
+        vec![
+            "reference arithmetic = own transcriptions of TFtoPL §40-43, PLtoTF §62-66, TeX §568/§571-572, PLtoTF §75-80, TFtoPL §84 (vmodels::fontarith), calibrated against tftopl-produced .plst files of the corpus and TeX-verified dimensions asserted in boxworks-text / ligkern unit tests".into(),
+            "-2048.0 (0x80000000) is outside PLtoTF's legal range (get_fix rejects an integer part >= 2048): counted as skipped, not failed".into(),
+            "to_scaled is checked for storable fix_words (first byte 0 or 255, i.e. -16 <= x < 16) and legal design sizes (1pt <= design size < 2048pt); outside that TeX aborts the font".into(),
+            "compress: values are legal dimensions (|x| < 16.0); 'within half the tolerance' is read with PLtoTF's integer rounding, (delta+1) div 2; the `excess` rule of PLtoTF §78 (stop merging once exactly m classes remain) is not part of the statement and only counted".into(),
+            "next-larger graphs are functional (at most one NEXTLARGER per character), as in a TFM/PL file".into(),
+        ]
     }
-    fn phases(&self, _tier: Tier) -> Vec<Phase> {
-        vec![]
+
+    fn phases(&self, tier: Tier) -> Vec<Phase> {
+        let mut v = vec![];
+        match tier {
+            Tier::Quick => {
+                let n = (1u64 << 32).div_ceil(STRIDE).div_ceil(STRIDE_PER_CASE);
+                v.push(Phase::new("roundtrip_stride", n).batch(1));
+                v.push(Phase::new("roundtrip_boundary", 1).batch(1));
+                v.push(Phase::new("roundtrip_random", 96).batch(1));
+            }
+            Tier::Thorough => {
+                v.push(
+                    Phase::new("roundtrip_all", 1 << (32 - CHUNK_BITS))
+                        .batch(4)
+                        .exhaustive("all 2^32 fix_word bit patterns"),
+                );
+                v.push(Phase::new("roundtrip_boundary", 1).batch(1));
+            }
+        }
+        v.push(Phase::new("containers", tier.pick(1_500, 60_000)).batch(32));
+        v.push(
+            Phase::new("scaled_all_10pt", (1 << 25) / SCALED_CHUNK)
+                .batch(4)
+                .exhaustive("all 2^25 storable fix_words (first byte 0 or 255) at design size 10pt"),
+        );
+        v.push(Phase::new("scaled_random", tier.pick(400, 20_000)).batch(8));
+        v.push(
+            Phase::new("compress_small", 4095 * 12)
+                .batch(256)
+                .exhaustive("all non-empty subsets of the integers -3..=8 with every class limit 1..=12 (full brute-force tolerance scan)"),
+        );
+        v.push(Phase::new("compress_random", tier.pick(20_000, 2_000_000)).batch(64));
+        v.push(
+            Phase::new("nextlarger_enum", NL_ENUM_TOTAL)
+                .batch(1024)
+                .exhaustive("all functional graphs on 1..=6 labelled characters (labels 0,7,100,128,200,255)"),
+        );
+        v.push(Phase::new("nextlarger_random", tier.pick(5_000, 200_000)).batch(64));
+        v
     }
-    fn run_case(&self, _phase: &str, _idx: u64, _rng: &mut Rng, _obs: &mut Obs) {}
+
+    fn floors(&self, tier: Tier) -> Vec<(&'static str, u64)> {
+        vec![
+            ("roundtrip:values_checked", tier.pick(6_000_000, 1 << 32) - 1),
+            ("roundtrip:negative_values", tier.pick(2_000_000, 1 << 31) - 1),
+            ("roundtrip:texts_with_7_fraction_digits", tier.pick(100_000, 100_000_000)),
+            ("roundtrip:abs_ge_16", tier.pick(2_000_000, 1 << 31)),
+            ("skipped:-2048.0 is outside PLtoTF's legal range", 1),
+            ("containers:values_checked", tier.pick(30_000, 1_000_000)),
+            ("scaled:pairs_checked", tier.pick(30_000_000, 30_000_000)),
+            ("scaled:negative_values", tier.pick(1_000_000, 1_000_000)),
+            ("scaled:design_size_needs_halving(z>=2^23)", tier.pick(10_000, 100_000)),
+            ("compress:really_compressed", tier.pick(10_000, 500_000)),
+            ("compress:minimality_refuted_smaller_tolerance", tier.pick(10_000, 500_000)),
+            ("compress:bruteforce_scans", tier.pick(20_000, 20_000)),
+            ("compress:negative_values_in_class", tier.pick(1_000, 50_000)),
+            ("nextlarger:graphs_with_cycle", tier.pick(20_000, 50_000)),
+            ("nextlarger:cycles_len>=3", tier.pick(5_000, 10_000)),
+            ("nextlarger:chains_checked", tier.pick(1_000_000, 10_000_000)),
+            ("nextlarger:edges_to_nonexistent", tier.pick(1_000, 50_000)),
+        ]
+    }
+
+    fn calibrate(&self, obs: &mut Obs) {
+        calibrate(obs)
+    }
+
+    fn run_case(&self, phase: &str, idx: u64, rng: &mut Rng, obs: &mut Obs) {
+        match phase {
+            "roundtrip_stride" => {
+                let offset = Rng::for_case(obs.seed, "C17", "stride-offset", 0).below(STRIDE);
+                let mut vals = Vec::with_capacity(STRIDE_PER_CASE as usize);
+                for j in 0..STRIDE_PER_CASE {
+                    let v = offset + (idx * STRIDE_PER_CASE + j) * STRIDE;
+                    if v < (1u64 << 32) {
+                        vals.push(v as u32 as i32);
+                    }
+                }
+                roundtrip_block(&vals, obs);
+            }
+            "roundtrip_boundary" => roundtrip_block(&boundary_values(), obs),
+            "roundtrip_random" => {
+                // 2^16 values: half uniform over all bit patterns, half biased to legal dimensions and short decimals
+                let vals: Vec<i32> = (0..1 << 16)
+                    .map(|i| if i & 1 == 0 { rng.next_u32() as i32 } else { hostile_fix(rng) })
+                    .collect();
+                roundtrip_block(&vals, obs);
+            }
+            "roundtrip_all" => {
+                let lo = idx << CHUNK_BITS;
+                let vals: Vec<i32> = (lo..lo + (1 << CHUNK_BITS)).map(|v| v as u32 as i32).collect();
+                roundtrip_block(&vals, obs);
+            }
+            "containers" => containers_case(rng, obs),
+            "scaled_all_10pt" => scaled_all_case(idx, obs),
+            "scaled_random" => scaled_random_case(rng, obs),
+            "compress_small" => compress_small_case(idx, obs),
+            "compress_random" => compress_random_case(rng, obs),
+            "nextlarger_enum" => nextlarger_enum_case(idx, obs),
+            "nextlarger_random" => nextlarger_random_case(rng, obs),
+            other => obs.inconclusive(format!("unknown phase {other}")),
+        }
+    }
+}
+
+// ------------------------------------------------------------------------------------------
+// print -> parse round trip
+
+fn boundary_values() -> Vec<i32> {
+    let mut v: Vec<i64> = vec![0, 1, -1, 2, -2, 3, 5, 10, i32::MAX as i64, i32::MIN as i64, i32::MIN as i64 + 1];
+    for b in 0..31 {
+        for d in -2..=2i64 {
+            v.push((1i64 << b) + d);
+            v.push(-(1i64 << b) + d);
+        }
+    }
+    // around every integer boundary that matters to PLtoTF / TFtoPL: 1, 16, 2047, 2048
+    for int in [1i64, 2, 9, 10, 15, 16, 17, 99, 100, 999, 1000, 2046, 2047] {
+        for d in -3..=3i64 {
+            v.push(int * (1 << 20) + d);
+            v.push(-int * (1 << 20) + d);
+        }
+    }
+    // fractions k/10^j, whose decimal is short, and their neighbours
+    for j in 1..=6u32 {
+        let p = 10i64.pow(j);
+        for k in [1i64, 3, 5, 7, 9, p - 1] {
+            let x = (k << 20) / p;
+            for d in -2..=2 {
+                v.push(x + d);
+                v.push(-(x + d));
+                v.push(2047 * (1 << 20) + x + d);
+            }
+        }
+    }
+    v.into_iter()
+        .filter(|x| *x >= i32::MIN as i64 && *x <= i32::MAX as i64)
+        .map(|x| x as i32)
+        .collect::<BTreeSet<i32>>()
+        .into_iter()
+        .collect()
+}
+
+fn roundtrip_block(vals: &[i32], obs: &mut Obs) {
+    for chunk in vals.chunks(DOC_BATCH) {
+        roundtrip_doc(chunk, obs);
+    }
+}
+
+/// One PL document: `(LIGTABLE (KRN C A R v1) (KRN C A R v2) ... )`.
+fn roundtrip_doc(vals: &[i32], obs: &mut Obs) {
+    use std::fmt::Write;
+    let mut doc = String::with_capacity(vals.len() * 28 + 32);
+    doc.push_str("(LIGTABLE\n");
+    let mut sent: Vec<i32> = Vec::with_capacity(vals.len());
+    let mut text = String::with_capacity(24);
+    let mut seven = 0u64;
+    let mut negative = 0u64;
+    let mut big = 0u64;
+    for &v in vals {
+        text.clear();
+        let printed = catch(|| write!(text, "{}", FixWord(v)));
+        match printed {
+            Ok(Ok(())) => {}
+            Ok(Err(_)) => {
+                obs.violation("roundtrip:display-returned-error", json!({"bits": v}));
+                continue;
+            }
+            Err(p) => {
+                obs.repo_panic(&p, json!({"what": "Display for FixWord", "bits": v}));
+                continue;
+            }
+        }
+        // TFtoPL §40-43: the real text must be what TFtoPL prints
+        let want = fa::print_fix_word(v);
+        if text != want {
+            obs.violation(
+                "roundtrip:display-differs-from-tftopl-out_fix",
+                json!({"bits": v, "hex": format!("{:#010x}", v as u32), "printed": text, "tftopl_40_43": want}),
+            );
+        }
+        // the two model formulations must agree with each other (PLtoTF §62-66 inverts TFtoPL §40-43)
+        match fa::parse_fix_word(&want) {
+            Ok(back) if back == v => {}
+            Err(fa::FixParseError::TooBig) if v == i32::MIN => {}
+            other => {
+                obs.inconclusive(format!(
+                    "model disagreement: parse_fix_word(print_fix_word({v})) = {other:?}"
+                ));
+                continue;
+            }
+        }
+        if v == i32::MIN {
+            // the single pattern PLtoTF cannot read back
+            obs.skip("-2048.0 is outside PLtoTF's legal range");
+            obs.add("roundtrip:min_value_text_is_-2048.0", (text == "-2048.0") as u64);
+            continue;
+        }
+        if v < 0 {
+            negative += 1;
+        }
+        if !(-(16 << 20)..(16 << 20)).contains(&v) {
+            big += 1;
+        }
+        if text.len() - text.find('.').unwrap_or(0) > 7 {
+            seven += 1;
+        }
+        doc.push_str("(KRN C A R ");
+        doc.push_str(&text);
+        doc.push_str(")\n");
+        sent.push(v);
+    }
+    doc.push_str(")\n");
+    if sent.is_empty() {
+        return;
+    }
+    let parsed = catch(|| tfm::pl::File::from_pl_source_code(&doc));
+    let (file, warnings) = match parsed {
+        Ok(r) => r,
+        Err(p) => {
+            obs.repo_panic(
+                &p,
+                json!({"what": "pl::File::from_pl_source_code", "first_value": sent[0], "n": sent.len()}),
+            );
+            return;
+        }
+    };
+    let got = &file.lig_kern_program.instructions;
+    if got.len() != sent.len() {
+        obs.violation(
+            "roundtrip:wrong-number-of-values-read-back",
+            json!({"sent": sent.len(), "got": got.len(), "first_value": sent[0],
+                   "warnings": warnings.len(), "doc_head": doc.chars().take(200).collect::<String>()}),
+        );
+        return;
+    }
+    for (v, ins) in sent.iter().zip(got.iter()) {
+        let back = match ins.operation {
+            tfm::ligkern::lang::Operation::Kern(f) => Some(f.0),
+            _ => None,
+        };
+        if back != Some(*v) {
+            obs.violation(
+                "roundtrip:parse-of-printed-text-differs",
+                json!({"bits": v, "hex": format!("{:#010x}", *v as u32), "printed": format!("{}", FixWord(*v)),
+                       "read_back": back, "model_parse": format!("{:?}", fa::parse_fix_word(&fa::print_fix_word(*v)))}),
+            );
+        }
+    }
+    if !warnings.is_empty() {
+        obs.violation(
+            "roundtrip:reader-warned-about-printed-text",
+            json!({"n_warnings": warnings.len(), "first_value": sent[0], "first_warning": format!("{:?}", warnings[0])}),
+        );
+    }
+    obs.add("roundtrip:values_checked", sent.len() as u64);
+    obs.add("roundtrip:negative_values", negative);
+    obs.add("roundtrip:abs_ge_16", big);
+    obs.add("roundtrip:texts_with_7_fraction_digits", seven);
+    obs.count("roundtrip:documents_read");
+    obs.nontrivial_by_construction(sent.len() as u64);
+    if obs.wants_sample() {
+        let k = sent.len() / 2;
+        obs.sample(json!({"document_entries": sent.len(), "example_bits": sent[k],
+                          "example_text": format!("{}", FixWord(sent[k])), "read_back": sent[k]}));
+    }
+}
+
+fn hostile_fix(rng: &mut Rng) -> i32 {
+    match rng.below(8) {
+        0 => rng.i32_hostile(),
+        1 => rng.range_i32(-(16 << 20), (16 << 20) - 1),
+        2 => rng.range_i32(-(1 << 20), 1 << 20),
+        3 => {
+            // k/10^j and neighbours
+            let j = rng.range_i64(1, 6) as u32;
+            let p = 10i64.pow(j);
+            let k = rng.range_i64(0, p * 16 - 1);
+            let x = ((k << 20) / p + rng.range_i64(-1, 1)) as i32;
+            if rng.coin() {
+                x
+            } else {
+                -x
+            }
+        }
+        _ => rng.next_u32() as i32,
+    }
+}
+
+/// Every syntactic place where the PL reader parses a fix_word.
+fn containers_case(rng: &mut Rng, obs: &mut Obs) {
+    use std::fmt::Write;
+    let mut doc = String::new();
+    let pfx = |rng: &mut Rng| if rng.chance(1, 4) { "D" } else { "R" };
+    let val = |rng: &mut Rng| loop {
+        let v = hostile_fix(rng);
+        if v != i32::MIN {
+            return v;
+        }
+    };
+    // DESIGNSIZE must be >= 1.0 to be accepted
+    let design = rng.range_i32(1 << 20, i32::MAX);
+    let units = val(rng);
+    let _ = writeln!(doc, "(DESIGNSIZE {} {})", pfx(rng), FixWord(design));
+    let _ = writeln!(doc, "(DESIGNUNITS {} {})", pfx(rng), FixWord(units));
+    // FONTDIMEN: named 1..7 (text font names) and numbered 8..=20
+    let named = ["SLANT", "SPACE", "STRETCH", "SHRINK", "XHEIGHT", "QUAD", "EXTRASPACE"];
+    let mut params: Vec<i32> = vec![];
+    doc.push_str("(FONTDIMEN\n");
+    for n in named {
+        let v = val(rng);
+        params.push(v);
+        let _ = writeln!(doc, "   ({} {} {})", n, pfx(rng), FixWord(v));
+    }
+    for n in 8..=20 {
+        let v = val(rng);
+        params.push(v);
+        let _ = writeln!(doc, "   (PARAMETER D {} {} {})", n, pfx(rng), FixWord(v));
+    }
+    doc.push_str("   )\n");
+    let mut kerns: Vec<i32> = vec![];
+    doc.push_str("(LIGTABLE\n");
+    for _ in 0..6 {
+        let v = val(rng);
+        kerns.push(v);
+        let _ = writeln!(doc, "   (KRN C A {} {})", pfx(rng), FixWord(v));
+    }
+    doc.push_str("   )\n");
+    let mut dims: Vec<(u8, [i32; 4])> = vec![];
+    for c in 0..4u8 {
+        let code = b'a' + c;
+        let d = [val(rng), val(rng), val(rng), val(rng)];
+        dims.push((code, d));
+        let _ = writeln!(
+            doc,
+            "(CHARACTER C {}\n   (CHARWD {} {})\n   (CHARHT {} {})\n   (CHARDP {} {})\n   (CHARIC {} {})\n   )",
+            code as char,
+            pfx(rng), FixWord(d[0]), pfx(rng), FixWord(d[1]), pfx(rng), FixWord(d[2]), pfx(rng), FixWord(d[3])
+        );
+    }
+    let parsed = catch(|| tfm::pl::File::from_pl_source_code(&doc));
+    let (file, _warnings) = match parsed {
+        Ok(r) => r,
+        Err(p) => {
+            obs.repo_panic(&p, json!({"what": "pl::File::from_pl_source_code", "doc": doc}));
+            return;
+        }
+    };
+    let mut bad: Vec<Value> = vec![];
+    let mut n = 0u64;
+    let mut check = |what: String, want: i32, got: Option<i32>| {
+        n += 1;
+        if got != Some(want) {
+            bad.push(json!({"where": what, "bits": want, "printed": format!("{}", FixWord(want)), "read_back": got}));
+        }
+    };
+    check("DESIGNSIZE".into(), design, Some(file.header.design_size.0));
+    check("DESIGNUNITS".into(), units, Some(file.design_units.0));
+    for (i, v) in params.iter().enumerate() {
+        check(format!("FONTDIMEN #{}", i + 1), *v, file.params.get(i).map(|f| f.0));
+    }
+    for (i, v) in kerns.iter().enumerate() {
+        let got = file.lig_kern_program.instructions.get(i).and_then(|ins| match ins.operation {
+            tfm::ligkern::lang::Operation::Kern(f) => Some(f.0),
+            _ => None,
+        });
+        check(format!("KRN #{i}"), *v, got);
+    }
+    for (code, d) in &dims {
+        let cd = file.char_dimens.get(&Char(*code));
+        check(format!("CHARWD {code}"), d[0], cd.and_then(|c| c.width).map(|f| f.0));
+        check(format!("CHARHT {code}"), d[1], cd.and_then(|c| c.height).map(|f| f.0));
+        check(format!("CHARDP {code}"), d[2], cd.and_then(|c| c.depth).map(|f| f.0));
+        check(format!("CHARIC {code}"), d[3], cd.and_then(|c| c.italic_correction).map(|f| f.0));
+    }
+    obs.add("containers:values_checked", n);
+    if !bad.is_empty() {
+        obs.violation(
+            "containers:parse-of-printed-text-differs",
+            json!({"mismatches": bad, "doc": doc}),
+        );
+    }
+    obs.nontrivial(&doc);
+    if obs.wants_sample() {
+        obs.sample(json!({"doc_head": doc.chars().take(240).collect::<String>(), "values": n}));
+    }
+}
+
+// ------------------------------------------------------------------------------------------
+// to_scaled
+
+fn check_scaled(fix: i32, design: i32, obs: &mut Obs) -> bool {
+    let m1 = fa::store_scaled(fix, design);
+    let m2 = fa::store_scaled_closed_form(fix, design);
+    if m1 != m2 || m1.is_none() {
+        obs.inconclusive(format!(
+            "model disagreement: store_scaled({fix},{design}) = {m1:?}, closed form = {m2:?}"
+        ));
+        return false;
+    }
+    let want = m1.unwrap();
+    match catch(|| FixWord(fix).to_scaled(FixWord(design))) {
+        Ok(s) => {
+            if s.0 != want {
+                obs.violation(
+                    "scaled:to_scaled-differs-from-store_scaled",
+                    json!({"fix_word_bits": fix, "fix_word": fa::print_fix_word(fix),
+                           "design_size_bits": design, "design_size": fa::print_fix_word(design),
+                           "to_scaled_sp": s.0, "tex_571_572_sp": want,
+                           "to_scaled": fa::print_scaled(s.0), "tex": fa::print_scaled(want)}),
+                );
+                return false;
+            }
+            true
+        }
+        Err(p) => {
+            obs.repo_panic(&p, json!({"what": "FixWord::to_scaled", "fix_word_bits": fix, "design_size_bits": design}));
+            false
+        }
+    }
+}
+
+fn scaled_all_case(idx: u64, obs: &mut Obs) {
+    let design = 10 << 20;
+    let lo = idx * SCALED_CHUNK;
+    let mut neg = 0;
+    for k in lo..lo + SCALED_CHUNK {
+        // k runs over 0 .. 2^25: first half non-negative, second half the negative values
+        let fix = if k < (1 << 24) { k as i32 } else { (k as i64 - (1 << 25)) as i32 };
+        if fix < 0 {
+            neg += 1;
+        }
+        if !check_scaled(fix, design, obs) {
+            break;
+        }
+    }
+    obs.add("scaled:pairs_checked", SCALED_CHUNK);
+    obs.add("scaled:negative_values", neg);
+    obs.nontrivial_by_construction(SCALED_CHUNK);
+    if obs.wants_sample() {
+        let fix = (lo + 12345) as i32;
+        obs.sample(json!({"fix_word": fa::print_fix_word(fix), "design_size": "10.0",
+                          "to_scaled": fa::print_scaled(FixWord(fix).to_scaled(FixWord(design)).0)}));
+    }
+}
+
+fn legal_design(rng: &mut Rng) -> i32 {
+    match rng.below(10) {
+        0..=2 => *rng.pick(&[5, 6, 7, 8, 9, 10, 12, 17, 20, 24, 36, 72, 127, 128, 129, 256, 512, 1024, 2047]) << 20,
+        3 => {
+            // around the halving thresholds z = 2^23 .. 2^26, i.e. design size 2^27 .. 2^30
+            let b = rng.range_i64(27, 30);
+            ((1i64 << b) + rng.range_i64(-40, 40)).clamp(1 << 20, i32::MAX as i64) as i32
+        }
+        4 => rng.range_i32(1 << 20, (1 << 20) + 64),
+        5 => i32::MAX - rng.range_i32(0, 64),
+        6 => rng.range_i32(1 << 20, 20 << 20),
+        _ => rng.range_i32(1 << 20, i32::MAX),
+    }
+}
+
+fn storable_fix(rng: &mut Rng) -> i32 {
+    match rng.below(6) {
+        0 => *rng.pick(&[0, 1, -1, (16 << 20) - 1, -(16 << 20), 1 << 20, -(1 << 20), 255, 256, 65535, 65536, -255, -256, -65536]),
+        1 => rng.range_i32(-(1 << 20), 1 << 20),
+        2 => {
+            // bytes at their extremes
+            let b = *rng.pick(&[0u32, 1, 127, 128, 255]);
+            let c = *rng.pick(&[0u32, 1, 127, 128, 255]);
+            let d = *rng.pick(&[0u32, 1, 127, 128, 255]);
+            let a = if rng.coin() { 0u32 } else { 255 };
+            ((a << 24) | (b << 16) | (c << 8) | d) as i32
+        }
+        _ => rng.range_i32(-(16 << 20), (16 << 20) - 1),
+    }
+}
+
+fn scaled_random_case(rng: &mut Rng, obs: &mut Obs) {
+    let per_case = 5_000;
+    let mut neg = 0;
+    let mut halved = 0;
+    let mut first: Option<(i32, i32)> = None;
+    let mut h: u64 = 0;
+    for _ in 0..per_case {
+        let design = legal_design(rng);
+        let fix = storable_fix(rng);
+        if fix < 0 {
+            neg += 1;
+        }
+        if (design >> 4) >= (1 << 23) {
+            halved += 1;
+        }
+        if !check_scaled(fix, design, obs) {
+            break;
+        }
+        h = h.wrapping_mul(0x100000001b3) ^ stable_hash(&(fix, design));
+        first.get_or_insert((fix, design));
+    }
+    obs.add("scaled:pairs_checked", per_case);
+    obs.add("scaled:negative_values", neg);
+    obs.add("scaled:design_size_needs_halving(z>=2^23)", halved);
+    obs.nontrivial_hash(h);
+    if obs.wants_sample() {
+        if let Some((fix, design)) = first {
+            obs.sample(json!({"fix_word": fa::print_fix_word(fix), "design_size": fa::print_fix_word(design),
+                              "to_scaled": fa::print_scaled(FixWord(fix).to_scaled(FixWord(design)).0),
+                              "pairs_in_case": per_case}));
+        }
+    }
+}
+
+// ------------------------------------------------------------------------------------------
+// compress
+
+struct CompressFacts {
+    compressed: bool,
+    tolerance: i64,
+    classes: usize,
+}
+
+/// The whole oracle for one call. `bruteforce`: also scan all candidate tolerances with the DP.
+fn check_compress(values: &[i32], m: u8, bruteforce: bool, obs: &mut Obs) -> Option<CompressFacts> {
+    let input: Vec<FixWord> = values.iter().map(|v| FixWord(*v)).collect();
+    let (result, map) = match catch(|| tfm::compress(&input, m)) {
+        Ok(r) => r,
+        Err(p) => {
+            obs.repo_panic(&p, json!({"what": "tfm::compress", "values": values, "max_size": m}));
+            return None;
+        }
+    };
+    let sorted: Vec<i64> = values
+        .iter()
+        .map(|v| *v as i64)
+        .collect::<BTreeSet<i64>>()
+        .into_iter()
+        .collect();
+    let n = sorted.len();
+    let mm = m as usize;
+    let res: Vec<i64> = result.iter().map(|f| f.0 as i64).collect();
+    let witness = |what: &str, extra: Value| {
+        json!({"what": what, "values_sorted_distinct": sorted, "max_size": m, "result": res,
+               "map": sorted.iter().map(|v| map.get(&FixWord(*v as i32)).map(|i| i.get())).collect::<Vec<_>>(),
+               "extra": extra})
+    };
+    // shape
+    if res.first() != Some(&0) {
+        obs.violation("compress:result[0]-is-not-zero", witness("result must start with the zero entry", json!(null)));
+        return None;
+    }
+    let k = res.len() - 1;
+    if k > mm {
+        obs.violation("compress:more-classes-than-allowed", witness("more classes than max_size", json!({"classes": k})));
+        return None;
+    }
+    if map.len() != n {
+        obs.violation("compress:map-keys-differ-from-input-values", witness("map must have exactly the distinct input values as keys", json!({"map_len": map.len()})));
+        return None;
+    }
+    let mut idx: Vec<usize> = Vec::with_capacity(n);
+    for v in &sorted {
+        match map.get(&FixWord(*v as i32)) {
+            Some(i) if (i.get() as usize) <= k => idx.push(i.get() as usize),
+            other => {
+                obs.violation(
+                    "compress:value-without-valid-class",
+                    witness("an input value has no class or a class index outside the result", json!({"value": v, "index": other.map(|i| i.get())})),
+                );
+                return None;
+            }
+        }
+    }
+    // classes are the consecutive runs 1,2,..,k over the sorted values
+    let mut partition: Vec<(usize, usize)> = vec![];
+    let mut start = 0;
+    for i in 1..=n {
+        if i == n || idx[i] != idx[start] {
+            partition.push((start, i));
+            start = i;
+        }
+    }
+    let consecutive = partition.iter().enumerate().all(|(c, (s, _))| idx[*s] == c + 1);
+    if !consecutive || partition.len() != k {
+        obs.violation(
+            "compress:classes-are-not-consecutive-runs",
+            witness("class indices must be 1..k in value order, each used", json!({"indices": idx, "classes": k})),
+        );
+        return None;
+    }
+    // representatives and tolerance actually used
+    let mut d_impl = 0i64;
+    for (c, (s, e)) in partition.iter().enumerate() {
+        let (first, last) = (sorted[*s], sorted[*e - 1]);
+        d_impl = d_impl.max(last - first);
+        let rep = res[c + 1];
+        if (2 * rep - (first + last)).abs() > 1 {
+            obs.violation(
+                "compress:representative-is-not-the-class-midpoint",
+                witness("representative must be the midpoint of its class (up to integer rounding)", json!({"class": c + 1, "first": first, "last": last, "representative": rep})),
+            );
+            return None;
+        }
+        if first < 0 && last != first {
+            obs.count("compress:negative_values_in_class");
+        }
+    }
+    if n <= mm {
+        // nothing to compress: tolerance 0, every value its own representative
+        if d_impl != 0 || k != n {
+            obs.violation(
+                "compress:lossy-although-values-fit",
+                witness("the distinct values fit into max_size classes, tolerance must be 0", json!({"tolerance_used": d_impl})),
+            );
+            return None;
+        }
+        return Some(CompressFacts { compressed: false, tolerance: 0, classes: k });
+    }
+    // every value within half the tolerance (PLtoTF: (delta+1) div 2) of its representative
+    for (c, (s, e)) in partition.iter().enumerate() {
+        for v in &sorted[*s..*e] {
+            if 2 * (v - res[c + 1]).abs() > d_impl + 1 {
+                obs.violation("compress:value-further-than-half-tolerance", witness("value further than half the tolerance from its representative", json!({"value": v, "class": c + 1, "tolerance": d_impl})));
+                return None;
+            }
+        }
+    }
+    // the partition is the greedy cover for the tolerance used
+    let greedy = fa::greedy_cover(&sorted, d_impl);
+    if greedy != partition {
+        obs.violation(
+            "compress:not-the-greedy-cover",
+            witness("classes are not the left-to-right greedy cover for the tolerance used", json!({"tolerance_used": d_impl, "greedy": greedy, "got": partition})),
+        );
+        return None;
+    }
+    // minimality: the next smaller candidate tolerance must be infeasible
+    let below = fa::largest_difference_below(&sorted, d_impl);
+    let feasible_below = match below {
+        Some(c) => fa::min_cover(&sorted, c).0 <= mm,
+        None => fa::min_cover(&sorted, 0).0 <= mm && d_impl > 0,
+    };
+    // second formulation: Knuth's own search (PLtoTF §76)
+    let d_knuth = fa::shorten(&sorted, mm);
+    let mut d_brute = None;
+    if bruteforce {
+        d_brute = Some(fa::smallest_tolerance_bruteforce(&sorted, mm));
+        obs.count("compress:bruteforce_scans");
+    }
+    let model_consistent = (d_knuth < d_impl) == feasible_below
+        && d_brute.map_or(true, |b| b == d_knuth)
+        && d_knuth <= d_impl;
+    if !model_consistent {
+        obs.inconclusive(format!(
+            "model disagreement on the smallest tolerance: shorten={d_knuth} brute={d_brute:?} neighbour-feasible={feasible_below} impl={d_impl} values={sorted:?} m={m}"
+        ));
+        return None;
+    }
+    if d_knuth != d_impl {
+        obs.violation(
+            "compress:tolerance-is-not-the-smallest-possible",
+            witness("a smaller tolerance already fits into max_size classes", json!({"tolerance_used": d_impl, "smallest_possible": d_knuth, "bruteforce": d_brute})),
+        );
+        return None;
+    }
+    obs.count("compress:minimality_refuted_smaller_tolerance");
+    // information only: PLtoTF's `excess` rule would keep exactly m classes
+    let (_, reps, _) = fa::pltotf_shorten_and_index(&sorted, mm);
+    if reps.len() != k {
+        obs.count("compress:info_pltotf_excess_rule_would_keep_more_classes");
+    } else if reps != res[1..] {
+        obs.count("compress:info_pltotf_rounds_negative_midpoint_differently");
+    }
+    Some(CompressFacts { compressed: true, tolerance: d_impl, classes: k })
+}
+
+fn compress_small_case(idx: u64, obs: &mut Obs) {
+    let m = (idx % 12) as u8 + 1;
+    let mask = idx / 12 + 1; // 1..=4095
+    let values: Vec<i32> = (0..12).filter(|b| mask >> b & 1 == 1).map(|b| b as i32 - 3).collect();
+    if let Some(f) = check_compress(&values, m, true, obs) {
+        if f.compressed {
+            obs.count("compress:really_compressed");
+        }
+        obs.nontrivial_by_construction(1);
+        if obs.wants_sample() && f.compressed {
+            obs.sample(json!({"values": values, "max_size": m, "tolerance": f.tolerance, "classes": f.classes}));
+        }
+    }
+}
+
+fn compress_random_case(rng: &mut Rng, obs: &mut Obs) {
+    let n = match rng.below(10) {
+        0 => rng.range_usize(0, 4),
+        1..=3 => rng.range_usize(2, 20),
+        4..=6 => rng.range_usize(10, 80),
+        _ => rng.range_usize(40, 300),
+    };
+    let mut values: Vec<i32> = Vec::with_capacity(n);
+    let lim = (16 << 20) - 1;
+    let style = rng.below(8);
+    let centres: Vec<i32> = (0..rng.range_usize(1, 20)).map(|_| rng.range_i32(-lim, lim)).collect();
+    let spread = 1i32 << rng.range_i32(0, 18);
+    let step_bits = rng.range_i32(0, 16);
+    let step = rng.range_i32(1, 1 << step_bits);
+    let base = rng.range_i32(-(1 << 22), 1 << 22);
+    for i in 0..n {
+        let v = match style {
+            0 => rng.range_i32(-lim, lim),
+            1 => rng.range_i32(-40, 40),
+            2 => base + step * i as i32,
+            3 | 4 => (*rng.pick(&centres) as i64 + rng.range_i64(-(spread as i64), spread as i64)).clamp(-(lim as i64), lim as i64) as i32,
+            5 => rng.range_i32(0, 1 << 20),
+            6 => base.wrapping_add(step.wrapping_mul(rng.range_i32(0, 40))).clamp(-lim, lim),
+            _ => {
+                if rng.coin() {
+                    rng.range_i32(-(1 << 20), 0)
+                } else {
+                    rng.range_i32(-lim, lim)
+                }
+            }
+        };
+        values.push(v.clamp(-lim - 1, lim));
+    }
+    // duplicates: the input is a multiset
+    for _ in 0..rng.range_usize(0, 5) {
+        if !values.is_empty() && values.len() < 300 {
+            let v = *rng.pick(&values);
+            values.push(v);
+        }
+    }
+    rng.shuffle(&mut values);
+    let distinct = values.iter().collect::<BTreeSet<_>>().len();
+    let m: u8 = match rng.below(6) {
+        0 => rng.range_i32(1, 255) as u8,
+        1 => *rng.pick(&[1u8, 15, 63, 255]),
+        // most interesting: fewer classes than distinct values
+        _ => rng.range_i64(1, (distinct.max(2) as i64 - 1).min(255)) as u8,
+    };
+    let brute = distinct <= 10;
+    if let Some(f) = check_compress(&values, m, brute, obs) {
+        obs.count("compress:calls_checked");
+        if f.compressed {
+            obs.count("compress:really_compressed");
+            let mut canon: Vec<i32> = values.clone();
+            canon.sort_unstable();
+            canon.dedup();
+            obs.nontrivial(&(canon, m));
+            if f.classes < m as usize {
+                obs.count("compress:fewer_classes_than_allowed_at_minimum");
+            }
+        }
+        if obs.wants_sample() && f.compressed {
+            obs.sample(json!({"n_values": values.len(), "distinct": distinct, "max_size": m,
+                              "tolerance": f.tolerance, "tolerance_as_fix_word": fa::print_fix_word(f.tolerance as i32), "classes": f.classes}));
+        }
+    }
+}
+
+// ------------------------------------------------------------------------------------------
+// next larger
+
+const NL_LABELS: [u8; 6] = [0, 7, 100, 128, 200, 255];
+// sum over n=1..=6 of (n+1)^n
+const NL_ENUM_TOTAL: u64 = 2 + 9 + 64 + 625 + 7776 + 117_649;
+
+fn nextlarger_enum_case(idx: u64, obs: &mut Obs) {
+    // decode: which n, then a mixed-radix number with n digits in base n+1 (digit n = no link)
+    let mut rest = idx;
+    let mut n = 1u64;
+    loop {
+        let size = (n + 1).pow(n as u32);
+        if rest < size {
+            break;
+        }
+        rest -= size;
+        n += 1;
+    }
+    let mut edges: BTreeMap<u8, u8> = BTreeMap::new();
+    for i in 0..n {
+        let d = rest % (n + 1);
+        rest /= n + 1;
+        if d < n {
+            edges.insert(NL_LABELS[i as usize], NL_LABELS[d as usize]);
+        }
+    }
+    let order: Vec<(u8, u8)> = edges.iter().map(|(a, b)| (*a, *b)).collect();
+    check_next_larger(&edges, &order, &BTreeSet::new(), true, obs);
+    obs.nontrivial_by_construction(1);
+}
+
+fn nextlarger_random_case(rng: &mut Rng, obs: &mut Obs) {
+    let n_nodes = match rng.below(4) {
+        0 => rng.range_usize(1, 8),
+        1 => rng.range_usize(4, 40),
+        2 => 256,
+        _ => rng.range_usize(20, 256),
+    };
+    let mut nodes: Vec<u8> = (0..=255u8).collect();
+    rng.shuffle(&mut nodes);
+    nodes.truncate(n_nodes);
+    let mut edges: BTreeMap<u8, u8> = BTreeMap::new();
+    let density = rng.range_i64(1, 10) as u64;
+    let style = rng.below(4);
+    for (i, &c) in nodes.iter().enumerate() {
+        if !rng.chance(density, 10) {
+            continue;
+        }
+        let t = match style {
+            // long chains and big cycles: link to the next node of the shuffled order
+            0 => nodes[(i + 1) % nodes.len()],
+            // mostly upwards (like real fonts), sometimes back
+            1 => {
+                let bigger: Vec<u8> = nodes.iter().copied().filter(|x| *x > c).collect();
+                if !bigger.is_empty() && rng.chance(9, 10) {
+                    *rng.pick(&bigger)
+                } else {
+                    *rng.pick(&nodes)
+                }
+            }
+            _ => *rng.pick(&nodes),
+        };
+        edges.insert(c, t);
+    }
+    // some target characters do not exist
+    let mut missing: BTreeSet<u8> = BTreeSet::new();
+    if rng.chance(1, 3) {
+        for t in edges.values() {
+            if rng.chance(1, 6) {
+                missing.insert(*t);
+            }
+        }
+    }
+    let drop = rng.coin();
+    let mut order: Vec<(u8, u8)> = edges.iter().map(|(a, b)| (*a, *b)).collect();
+    rng.shuffle(&mut order);
+    check_next_larger(&edges, &order, &missing, drop, obs);
+    if !edges.is_empty() {
+        obs.nontrivial(&(order.iter().collect::<BTreeSet<_>>(), &missing, drop));
+    }
+}
+
+fn check_next_larger(
+    edges: &BTreeMap<u8, u8>,
+    order: &[(u8, u8)],
+    missing: &BTreeSet<u8>,
+    drop_non_existent: bool,
+    obs: &mut Obs,
+) {
+    let witness = |extra: Value| {
+        json!({"edges": order, "non_existent": missing, "drop_non_existent_characters": drop_non_existent, "extra": extra})
+    };
+    let real = catch(|| {
+        let (prog, warnings) = NextLargerProgram::new(
+            order.iter().map(|(a, b)| (Char(*a), Char(*b))),
+            |c| !missing.contains(&c.0),
+            drop_non_existent,
+        );
+        let chains: Vec<Vec<u8>> = (0..=255u8)
+            .map(|c| prog.get(Char(c)).take(300).map(|x| x.0).collect())
+            .collect();
+        (chains, warnings)
+    });
+    let (chains, warnings) = match real {
+        Ok(r) => r,
+        Err(p) => {
+            obs.repo_panic(&p, witness(json!({"what": "NextLargerProgram::new/get"})));
+            return;
+        }
+    };
+    // the links the model starts from: TFtoPL drops links to non-existent characters, PLtoTF keeps them
+    let mut start = edges.clone();
+    let mut to_missing = 0u64;
+    for (a, b) in edges {
+        if missing.contains(b) {
+            to_missing += 1;
+            if drop_non_existent {
+                start.remove(a);
+            }
+        }
+    }
+    let (links, cut) = fa::next_larger_links(&start);
+    let (links2, cut2) = fa::next_larger_links_by_cycles(&start);
+    if links != links2 || cut != cut2 {
+        obs.inconclusive(format!("model disagreement on cycle cuts: {cut:?} vs {cut2:?} for {start:?}"));
+        return;
+    }
+    for c in 0..=255u8 {
+        let got = &chains[c as usize];
+        // finite
+        if got.len() >= 300 {
+            obs.violation("nextlarger:chain-does-not-end", witness(json!({"from": c, "chain_head": &got[..20]})));
+            return;
+        }
+        // follows the font's links
+        let mut prev = c;
+        for x in got {
+            if start.get(&prev) != Some(x) {
+                obs.violation("nextlarger:chain-does-not-follow-the-links", witness(json!({"from": c, "chain": got, "bad_step": [prev, x]})));
+                return;
+            }
+            prev = *x;
+        }
+        // ends only where the font has no link or at the largest member of a cycle
+        let want = fa::next_larger_chain(&links, c).expect("model chains are finite");
+        if *got != want {
+            obs.violation(
+                "nextlarger:chain-cut-at-the-wrong-place",
+                witness(json!({"from": c, "chain": got, "expected": want, "cycle_cut_at": cut})),
+            );
+            return;
+        }
+    }
+    // warnings name exactly the cut characters / the links to non-existent characters
+    let mut warned_cut: Vec<u8> = vec![];
+    let mut warned_missing: Vec<(u8, u8)> = vec![];
+    for w in &warnings {
+        match w {
+            NextLargerProgramWarning::InfiniteLoop { original, next_larger } => {
+                if edges.get(&original.0) != Some(&next_larger.0) {
+                    obs.violation("nextlarger:loop-warning-names-a-non-link", witness(json!({"original": original.0, "next_larger": next_larger.0})));
+                    return;
+                }
+                warned_cut.push(original.0)
+            }
+            NextLargerProgramWarning::NonExistentCharacter { original, next_larger } => {
+                warned_missing.push((original.0, next_larger.0))
+            }
+        }
+    }
+    warned_cut.sort_unstable();
+    warned_missing.sort_unstable();
+    if warned_cut != cut {
+        obs.violation("nextlarger:loop-warnings-differ-from-cuts", witness(json!({"warned": warned_cut, "expected_cuts": cut})));
+        return;
+    }
+    let want_missing: Vec<(u8, u8)> = edges.iter().filter(|(_, b)| missing.contains(b)).map(|(a, b)| (*a, *b)).collect();
+    if warned_missing != want_missing {
+        obs.violation("nextlarger:non-existent-warnings-differ", witness(json!({"warned": warned_missing, "expected": want_missing})));
+        return;
+    }
+    obs.add("nextlarger:chains_checked", 256);
+    obs.add("nextlarger:edges_to_nonexistent", to_missing);
+    if !cut.is_empty() {
+        obs.count("nextlarger:graphs_with_cycle");
+        // cycle lengths
+        for c in &cut {
+            let mut len = 1;
+            let mut x = start[c];
+            while x != *c {
+                x = start[&x];
+                len += 1;
+            }
+            if len >= 3 {
+                obs.count("nextlarger:cycles_len>=3");
+            }
+            if len == 1 {
+                obs.count("nextlarger:self_loops");
+            }
+        }
+        if cut.len() >= 2 {
+            obs.count("nextlarger:graphs_with_several_cycles");
+        }
+    }
+    let longest = chains.iter().map(|c| c.len()).max().unwrap_or(0);
+    if longest >= 10 {
+        obs.count("nextlarger:graphs_with_chain_len>=10");
+    }
+    if obs.wants_sample() && !cut.is_empty() {
+        obs.sample(json!({"edges": order.iter().take(12).collect::<Vec<_>>(), "n_edges": order.len(),
+                          "cycle_cut_at": cut, "longest_chain": longest}));
+    }
+}
+
+// ------------------------------------------------------------------------------------------
+// calibration: the models against ground truth that exists in the repository
+
+fn calibrate(obs: &mut Obs) {
+    // (1) TFtoPL out_fix / PLtoTF get_fix against files written by Knuth's tftopl: every "R x.y"
+    // in a .plst that has a .tfm of the same name was printed by out_fix, hence
+    // print(parse(text)) must reproduce the text exactly.
+    let corpus = repo_dir().join("crates/tfm/corpus");
+    let mut reals = 0u64;
+    let mut files = 0u64;
+    for sub in ["computer-modern", "ctan"] {
+        let Ok(rd) = std::fs::read_dir(corpus.join(sub)) else {
+            continue;
+        };
+        let mut paths: Vec<_> = rd.filter_map(|e| e.ok().map(|e| e.path())).collect();
+        paths.sort();
+        for p in paths {
+            if p.extension().map_or(true, |e| e != "plst") {
+                continue;
+            }
+            let name = p.file_name().unwrap().to_string_lossy().to_string();
+            let Ok(text) = std::fs::read_to_string(&p) else {
+                continue;
+            };
+            // tftopl always writes these two comments; hand-written PL input does not carry them
+            if !text.contains("(COMMENT DESIGNSIZE IS IN POINTS)") || !text.contains("(COMMENT OTHER SIZES ARE MULTIPLES OF DESIGNSIZE)") {
+                continue;
+            }
+            files += 1;
+            let bytes = text.as_bytes();
+            let mut i = 0;
+            while i + 3 < bytes.len() {
+                if bytes[i] == b' ' && bytes[i + 1] == b'R' && bytes[i + 2] == b' ' {
+                    let s = i + 3;
+                    let mut e = s;
+                    while e < bytes.len() && (bytes[e] == b'-' || bytes[e] == b'.' || bytes[e].is_ascii_digit()) {
+                        e += 1;
+                    }
+                    if e > s && bytes.get(e) == Some(&b')') {
+                        let t = &text[s..e];
+                        match fa::parse_fix_word(t) {
+                            Ok(v) => {
+                                reals += 1;
+                                let back = fa::print_fix_word(v);
+                                if back != t {
+                                    obs.inconclusive(format!(
+                                        "calibration: tftopl printed '{t}' in {name}, model prints '{back}' for the same fix_word {v}"
+                                    ));
+                                    return;
+                                }
+                            }
+                            Err(e) => {
+                                obs.inconclusive(format!("calibration: model cannot parse tftopl output '{t}' in {name}: {e:?}"));
+                                return;
+                            }
+                        }
+                    }
+                    i = e;
+                } else {
+                    i += 1;
+                }
+            }
+        }
+    }
+    obs.add("calibration:tftopl_reals_reprinted_identically", reals);
+    obs.add("calibration:tftopl_files", files);
+    if reals < 5_000 {
+        obs.inconclusive(format!("calibration: only {reals} tftopl-printed reals found under {}", corpus.display()));
+    }
+
+    // (2) store_scaled against dimensions TeX itself produced (asserted in the repository's unit
+    // tests, which were verified against a real TeX): boxworks-text/src/lib.rs (cmr10,
+    // smfebsl10) and tfm/src/ligkern/mod.rs (ligaroo).
+    let golden: [(&str, &str, &str); 11] = [
+        ("10.0", "0.333334", "3.33333"),
+        ("10.0", "0.166667", "1.66666"),
+        ("10.0", "0.111112", "1.11111"),
+        ("10.0", "-0.027779", "-0.27779"),
+        ("10.0", "-0.111112", "-1.11113"),
+        ("7.970093", "0.6", "4.78204"),
+        ("7.970093", "0.299999", "2.39102"),
+        ("7.970093", "0.15", "1.19551"),
+        ("10.0", "0.1", "1.0"),
+        ("10.0", "0.3", "3.0"),
+        ("10.0", "1.0", "10.0"),
+    ];
+    for (ds, v, want) in golden {
+        let d = fa::parse_fix_word(ds).unwrap();
+        let f = fa::parse_fix_word(v).unwrap();
+        let got = fa::store_scaled(f, d).map(fa::print_scaled);
+        let got2 = fa::store_scaled_closed_form(f, d).map(fa::print_scaled);
+        if got.as_deref() != Some(want) || got2.as_deref() != Some(want) {
+            obs.inconclusive(format!("calibration: store_scaled({v} at {ds}pt) = {got:?}/{got2:?}, TeX gives {want}pt"));
+        } else {
+            obs.count("calibration:tex_verified_dimensions_reproduced");
+        }
+    }
+
+    // (3) compression model against the nine unit-test cases of tfm/src/lib.rs (values, limit,
+    // expected result without the leading zero)
+    let one = 1i64 << 20;
+    let cases: Vec<(Vec<i64>, usize, Vec<i64>)> = vec![
+        (vec![], 1, vec![]),
+        (vec![2 * one, one], 2, vec![one, 2 * one]),
+        (vec![one, one], 1, vec![one]),
+        (vec![one, 2 * one], 1, vec![3 * one / 2]),
+        (vec![one, 2 * one, 200 * one, 201 * one], 2, vec![3 * one / 2, 401 * one / 2]),
+        (vec![1, 3], 1, vec![2]),
+        (vec![0, 2], 1, vec![1]),
+        (vec![1, 4], 1, vec![2]),
+        (vec![1, 2], 1, vec![1]),
+    ];
+    for (vals, m, want) in cases {
+        let sorted: Vec<i64> = vals.iter().copied().collect::<BTreeSet<_>>().into_iter().collect();
+        let d = fa::shorten(&sorted, m);
+        let reps: Vec<i64> = fa::greedy_cover(&sorted, d)
+            .iter()
+            .map(|(s, e)| sorted[*s] + (sorted[*e - 1] - sorted[*s]) / 2)
+            .collect();
+        let brute = if sorted.is_empty() { 0 } else { fa::smallest_tolerance_bruteforce(&sorted, m) };
+        if reps != want || brute != d {
+            obs.inconclusive(format!("calibration: compression model gives {reps:?} (d={d}, brute={brute}) for {vals:?}/{m}, unit test expects {want:?}"));
+        } else {
+            obs.count("calibration:compress_unit_cases_reproduced");
+        }
+    }
+
+    // (4) next-larger model against the unit-test cases of tfm/src/lib.rs
+    let (a, b, c, x, y, z) = (b'A', b'B', b'C', b'X', b'Y', b'Z');
+    let nl_cases: Vec<(Vec<(u8, u8)>, Vec<(u8, Vec<u8>)>, Vec<u8>)> = vec![
+        (vec![(a, a)], vec![(a, vec![])], vec![a]),
+        (
+            vec![(a, b), (b, c), (c, b), (x, y), (y, z), (z, x)],
+            vec![(a, vec![b, c]), (b, vec![c]), (c, vec![]), (x, vec![y, z]), (y, vec![z]), (z, vec![])],
+            vec![c, z],
+        ),
+        (vec![(a, b), (b, c), (c, b)], vec![(a, vec![b, c]), (b, vec![c]), (c, vec![])], vec![c]),
+        (
+            (0..=255u8).map(|u| (u, u.wrapping_add(1))).collect(),
+            (0..=255u8).map(|u| (u, ((u as u16 + 1)..=255).map(|w| w as u8).collect())).collect(),
+            vec![255],
+        ),
+    ];
+    for (edges, want_chains, want_cut) in nl_cases {
+        let e: BTreeMap<u8, u8> = edges.into_iter().collect();
+        let (links, cut) = fa::next_larger_links(&e);
+        let ok = cut == want_cut
+            && fa::next_larger_links_by_cycles(&e) == (links.clone(), cut.clone())
+            && want_chains.iter().all(|(c, ch)| fa::next_larger_chain(&links, *c).as_ref() == Some(ch));
+        if !ok {
+            obs.inconclusive(format!("calibration: next-larger model disagrees with a unit-test case (cuts {cut:?}, expected {want_cut:?})"));
+        } else {
+            obs.count("calibration:next_larger_unit_cases_reproduced");
+        }
+    }
+    let _ = HashMap::<u8, u8>::new();
 }
